@@ -58,16 +58,16 @@ CHECKS = {
         ref="DESIGN 3/C14, 4/F-C14",
         note=TB + "; builtin semantics table of sa/exc.py; numeric-domain exceptions (OverflowError, ZeroDivisionError), RecursionError, MemoryError out of scope; nested sequences as elements are outside the property's domain"),
     "C01": dict(
-        technique="static deductive verification: value-based guard-fact dataflow over the ast CFG (phi terms at joins, candidate invariants kept iff every predecessor entails them), modular callee contracts, small order/equality/implication prover",
-        category="proof",
+        technique="static deductive verification: value-based guard-fact dataflow over the ast CFG (phi terms at joins, candidate invariants kept iff every predecessor entails them), modular callee contracts, small order/equality/implication prover; plus formula-shape audit of the contrast function and emitted-field rules as discharged assumptions",
+        category="other",
         text="Every return statement of the three strategies, of check_and_fix_contrast (4 premium/large configurations x 3 mode classes) and of make_readable carries the obligations "
              "flag truthy => contrast(returned colour, bg) >= MIN and flag falsy => contrast < MIN, MIN from the WCAG table of the property; all are discharged on all CFG paths from branch "
              "facts, definitions and callee contracts. This quantifies over all 2^48 pairs and every configuration at once; a flipped operator or a wrong table entry only matters on a measure-zero set of inputs but is one undischarged obligation here.",
         ref="DESIGN 3/C01, 2.2",
         note=TB + "; contracts (sa/contracts.py) transcribe the property; calculate_contrast_ratio / calculate_delta_e_2000 and the colour-preserving format wrappers are uninterpreted (their correctness: C05/C11/C06); A1 no NaN; oklch_to_rgb_safe yields valid 8-bit triples (C10)"),
     "C02": dict(
-        technique="static deductive verification (same guard-fact engine): accumulator lock-step invariants, monotonicity through callee contracts, early-return dominance",
-        category="proof",
+        technique="static deductive verification (same guard-fact engine): accumulator lock-step invariants, monotonicity through callee contracts, early-return dominance; plus formula-shape audit of the contrast function as discharged assumption",
+        category="other",
         text="At every return of the search, the strategies, the dispatcher and make_readable: contrast(result, bg) >= contrast(original, bg); and contrast(original) >= MIN implies the result denotes the "
              "original colour with success. Proved on all paths (loop invariants inferred as surviving candidates), hence for every pair, spelling-independent.",
         ref="DESIGN 3/C02",
